@@ -220,6 +220,17 @@ def _impl(tier, seed, search):
                             got = classify(sc_ + X_ if side == 'scalar + X' else (X_ + sc_ if side == 'X + scalar' else sc_ - X_))
                         except Exception: continue
                         L.fail(f'must-raise:scalar+{c}', f'{side} with scalar {tag} and a {c} must raise but returned {got}', inp, observed=got, required='exception')
+        # a plain list or tuple is not an operand of + and - (either side), whatever its length (NumPy would broadcast some of them)
+        for c in POSE:
+            n_ = dict(SO2=2, SE2=3, SO3=3, SE3=4)[c]
+            for m in (1, 2):
+                for seq_ in ([1.0] * n_, tuple([2.0] * n_), [[1.0] * n_] * n_, [1.0], [1.0] * (n_ + 1)):
+                    for side, fop in (('list - X', lambda X_: seq_ - X_), ('list + X', lambda X_: seq_ + X_), ('X - list', lambda X_: X_ - seq_), ('X + list', lambda X_: X_ + seq_)):
+                        inp = dict(cls=c, op=side, operand=repr(seq_)[:30], len=m)
+                        L.count('pose+-list', key=(c, side, repr(seq_)[:12], m)); L.sample('pose+-list', inp)
+                        try: got = classify(fop(mk(c, m)))
+                        except Exception: continue
+                        L.fail(f'must-raise:{c}+-list', f'{side} with a {type(seq_).__name__} and a {c} must raise but returned {got}', inp, observed=got, required='exception')
         # pose / array: only pose / pose and pose / scalar are defined — an array of the pose's own matrix shape (or any other array / list) must raise
         for c in POSE:
             n_ = dict(SO2=2, SE2=3, SO3=3, SE3=4)[c]
